@@ -208,6 +208,12 @@ impl Session {
         match dir_fault {
             "missing" => {}
             "file" => { std::fs::write(opts.user_dir(), b"not a directory").map_err(|e| e.to_string())?; }
+            // the directory is missing and cannot be made either: a component above it is a regular file
+            "blocked" => {
+                let blocker = dir.path().join("blocker");
+                std::fs::write(&blocker, b"not a directory").map_err(|e| e.to_string())?;
+                opts.user_home = blocker;
+            }
             _ => {
                 std::fs::create_dir_all(opts.user_dir()).map_err(|e| e.to_string())?;
                 if let Some(b) = uac { std::fs::write(opts.user_dir().join("autocorrect.json"), b).map_err(|e| e.to_string())?; }
